@@ -228,6 +228,11 @@ def _run_scenario(spec, res):
         # ---- witness: a model of the path, symbolic outputs evaluated under it vs. the real library
         model = eng.path_model()
         conc = None
+        if model is None and getattr(eng, "last_path_status", None) == "unsat":
+            # the branch decisions of this path were taken on 'unknown' feasibility answers; the full path condition is unsatisfiable
+            res.messages.append("path %d: infeasible (path condition unsatisfiable), skipped" % pi)
+            res.infeasible_paths = getattr(res, "infeasible_paths", 0) + 1
+            continue
         if model is not None:
             ev = eng.evaluator(model)
             # a path whose condition mentions uninterpreted cdf values (p < alpha forks) is only witnessed by data whose REAL
@@ -288,8 +293,12 @@ def _run_scenario(spec, res):
                 res.vcs += 1
                 if _jsonable(o.impl) == _jsonable(o.oracle):
                     res.discharged["concrete"] += 1
+                elif model is None:
+                    # no data point is known to drive the library down this path: a difference seen on it is not a verdict
+                    res.status = "inconclusive" if res.status == "ok" else res.status
+                    res.messages.append("INCONCLUSIVE %s differs on path %d, for which no witness was found (feasibility unknown)" % (o.label, pi))
                 else:
-                    _report_violation(spec, res, eng, model or {}, o.label,
+                    _report_violation(spec, res, eng, model, o.label,
                                       dict(index=[], impl=_jsonable(o.impl), oracle=_jsonable(o.oracle)), "concrete")
                 continue
             if o.kind == "holds":
